@@ -3,11 +3,14 @@
 package main
 
 import (
+	"encoding/json"
 	"flag"
 	"fmt"
 	"os"
 
+	"verifharness/envcheck"
 	"verifharness/gate"
+	"verifharness/sanitize"
 	"verifharness/stack"
 	"verifharness/walkfile"
 )
@@ -27,6 +30,8 @@ func main() {
 	out := fs.String("out", "", "output file")
 	maxDiv := fs.Int("maxdiv", 5, "stop after this many divergences")
 	from := fs.Int("from", 0, "first scenario index")
+	seed := fs.Int("seed", 1, "seed for concretisation")
+	reps := fs.Int("reps", 2, "concrete inputs per abstract case")
 	quiet := fs.Bool("quiet", true, "silence the emulator's log")
 	_ = fs.Parse(os.Args[2:])
 	switch sub {
@@ -37,6 +42,30 @@ func main() {
 		}
 		rep := gate.ReplayWalk(f, *maxDiv)
 		if err := rep.Write(*out); err != nil {
+			die("write: %v", err)
+		}
+	case "envcases":
+		stack.Quiet()
+		cases, err := envcheck.Load(*in)
+		if err != nil {
+			die("load: %v", err)
+		}
+		rep := &envcheck.Report{}
+		envcheck.RunAPI(cases, rep)
+		envcheck.RunFullStack(cases, rep)
+		b, _ := json.MarshalIndent(rep, "", " ")
+		if err := os.WriteFile(*out, b, 0o644); err != nil {
+			die("write: %v", err)
+		}
+	case "sanitize":
+		stack.Quiet()
+		cases, err := sanitize.Load(*in)
+		if err != nil {
+			die("load: %v", err)
+		}
+		rep := sanitize.Run(cases, int64(*seed), *reps)
+		b, _ := json.MarshalIndent(rep, "", " ")
+		if err := os.WriteFile(*out, b, 0o644); err != nil {
 			die("write: %v", err)
 		}
 	case "run":
